@@ -400,6 +400,13 @@ func TestVerifC12ClientProbeOrder(t *testing.T) {
 				continue
 			}
 			dirLabels = append(dirLabels, fmt.Sprintf("directed:group-of-%d", len(ms)))
+			for _, u := range g.UUIDs {
+				if len(u) == 27 {
+					dirLabels = append(dirLabels, "directed:member-with-27-char-uuid")
+				} else {
+					dirLabels = append(dirLabels, "directed:member-with-other-length-uuid")
+				}
+			}
 			if g.Hash == dhash {
 				for _, m := range ms {
 					writeGroup[m.UUID] = true
@@ -429,7 +436,15 @@ func TestVerifC12ClientProbeOrder(t *testing.T) {
 			}
 		}
 		labels := []string{fmt.Sprintf("uuids=%s", [...]string{"all-27", "all-other-length", "mixed"}[mode])}
-		labels = append(labels, dirLabels...)
+		{
+			seenL := map[string]bool{}
+			for _, l := range dirLabels {
+				if !seenL[l] {
+					seenL[l] = true
+					labels = append(labels, l)
+				}
+			}
+		}
 		// measured on the set itself, whatever produced it
 		labels = append(labels, "read-hash:longest-common-weight-prefix="+nearmd5.PrefixBucket(nearmd5.MaxSharedPrefix(hash, c12Keys2(svcs))))
 		{
